@@ -857,7 +857,19 @@ def x9(ctx, R):
                 else:
                     ctx.violation("X9", f, "format-arity:%s" % fmt[:30], "format %r takes %d value(s) but gets %d: TypeError when the message is built"
                                   % (fmt, specs, got), node=b)
-    ctx.need("X9", "%-format sites", n, 6)
+    # messages built with str.format / f-strings have no arity to get wrong; they count as message sites
+    from sa.template import template
+    other = 0
+    for f in R.reachable():
+        for b in walk_no_nested(f.node):
+            if isinstance(b, ast.JoinedStr) or (isinstance(b, ast.Call) and isinstance(b.func, ast.Attribute) and b.func.attr == "format"
+                                                 and isinstance(b.func.value, ast.Constant)):
+                if template(b) is not None:
+                    other += 1
+                elif isinstance(b, ast.Call):
+                    ctx.violation("X9", f, "format-fields:%s" % norm(b)[:40], "str.format fields of %s do not match its arguments: IndexError/KeyError "
+                                  "when the message is built" % norm(b)[:60], node=b)
+    ctx.need("X9", "message-building sites", n + other, 6)
 
 
 # ------------------------------------------------------------------------------- X10
@@ -907,7 +919,7 @@ def x10(ctx, R):
 def x13(ctx, R):
     """str(e) runs inside the handler: whatever __str__ raises escapes parse().  The stored attributes come from constructor arguments whose
     type differs from raise site to raise site (a string, a list, a Command), so only operations total on every object are accepted."""
-    import re as _re
+    from sa.template import template, holes
     ctx.rule("X13", "exception messages are built with total operations only (they are formatted below the funnel)")
     tr, caught = funnel(ctx, R, "X13")
     if not any(isinstance(c, ast.Call) and call_name(c) in ("str", "repr", "format") or isinstance(c, (ast.JoinedStr, ast.BinOp))
@@ -935,19 +947,13 @@ def x13(ctx, R):
                 return True
             if isinstance(e, ast.Tuple):
                 return all(total(x) for x in e.elts)
-            if isinstance(e, ast.BinOp) and isinstance(e.op, ast.Mod) and isinstance(e.left, ast.Constant) and isinstance(e.left.value, str):
-                specs = _re.findall(r"%(?!%)[-#0 +]*\d*(?:\.\d+)?(.)", e.left.value.replace("%%", ""))
-                return all(x in "sr" for x in specs) and total(e.right)
-            if isinstance(e, ast.JoinedStr):
-                return all(isinstance(v, ast.Constant) or (isinstance(v, ast.FormattedValue) and v.format_spec is None and total(v.value))
-                           for v in e.values)
-            if isinstance(e, ast.Call):
-                if isinstance(e.func, ast.Name) and e.func.id in ("str", "repr") and len(e.args) == 1:
-                    return total(e.args[0])
-                if isinstance(e.func, ast.Attribute) and e.func.attr == "format" and isinstance(e.func.value, ast.Constant) \
-                        and isinstance(e.func.value.value, str) and not _re.search(r"\{[^}]*[:!.\[]", e.func.value.value):
-                    return all(total(a) for a in e.args) and all(total(k.value) for k in e.keywords)
-            return False
+            if isinstance(e, ast.Call) and isinstance(e.func, ast.Name) and e.func.id in ("str", "repr") and len(e.args) == 1 and not e.keywords:
+                return total(e.args[0])
+            t = template(e)
+            if t is None:
+                return False
+            # %s / %r / {} / {!s} / {!r} accept any object; a numeric conversion or a format spec does not
+            return all(h.spec is None and h.conv in (None, "s", "r", "a") and total(h.expr) for h in holes(t))
         for st in f.node.body:
             if isinstance(st, ast.Expr) and isinstance(st.value, ast.Constant):
                 continue
@@ -977,8 +983,13 @@ def x11(ctx, R):
         if okp:
             e0, e1, e2 = poss[0].value.elts
             okp = "curlineno" in norm(e0) and "curcolno" in norm(e1) and isinstance(e2, ast.Call) and call_name(e2) == "len"
-        oke = bool(errs) and all(isinstance(a.value, ast.BinOp) and isinstance(a.value.op, ast.Mod) and isinstance(a.value.left, ast.Constant)
-                                 and str(a.value.left.value).startswith("line %d: ") for a in errs)
+        from sa.template import template, Lit, Hole
+
+        def line_prefixed(v):
+            t = template(v)
+            return bool(t) and len(t) >= 3 and isinstance(t[0], Lit) and t[0].v == "line " and isinstance(t[1], Hole) and t[1].spec in (None, "d") \
+                and t[1].conv in (None, "d", "s") and isinstance(t[2], Lit) and str(t[2].v).startswith(": ")
+        oke = bool(errs) and all(line_prefixed(a.value) for a in errs)
         okr = bool(rets) and all(const_value(ctx.program, f, r.value) is False for r in rets if r.value is not None) and all(r.value is not None for r in rets)
         if okp and oke and okr:
             ctx.holds("X11", "%s: handler assigns error_pos=(line, column, length), error='line %%d: ...' and returns False" % f.qualname)
@@ -989,6 +1000,8 @@ def x11(ctx, R):
         for c in walk_no_nested(h):
             if isinstance(c, ast.Call):
                 cn = call_name(c)
+                if cn == "format" and isinstance(c.func, ast.Attribute) and isinstance(c.func.value, ast.Constant) and template(c) is not None:
+                    continue  # message building: fields match the arguments (else X9 reports it)
                 if cn not in ("curlineno", "curcolno", "len", "str"):
                     ctx.violation("X11", f, "handler-call:%s" % cn, "the handler calls %s, which may raise outside the funnel" % norm(c)[:50], node=c)
     last = f.node.body[-1]
